@@ -33,9 +33,11 @@ def scenarios(tier):
   hp = dict(nposters=1, posts=(2,), capacity=3, handler_post=True)
   pend = dict(nposters=2, posts=(1, 1), capacity=3, pending=1)
   three = dict(nposters=3, posts=(1, 1, 1), capacity=4)
+  # a pre-state with one spare wake-up token (a state real runs reach after a spurious wake-up) and one post: complete within K (adequacy)
+  spare = dict(nposters=1, posts=(1,), capacity=3, spare=1)
   if tier == "quick":
-    return [(two, 22), (hp, 22)]
-  return [(two, 26), (hp, 26), (pend, 24), (three, 20)]      # sized so that every query answers within the time limit (measured)
+    return [(two, 22), (hp, 22), (spare, 26)]
+  return [(two, 26), (hp, 26), (pend, 24), (three, 20), (spare, 30), (dict(nposters=2, posts=(1, 1), capacity=3, spare=1), 24)]      # sized so that every query answers within the time limit (measured)
 
 
 def bounds(tier):
